@@ -146,6 +146,22 @@ func effectRole(fn *types.Func) string {
 	if ps.Len() == 1 && isElem(ps.At(0).Type()) && onStore {
 		return "put"
 	}
+	// the bucket wrapper's own encode-and-put / delete, when the per-kind helpers above them were merged or dropped
+	// (`setElement(e, present)`): put(key, encodable) and delete(key)
+	if rn := recvNamed(fn); rn != nil && effectProg != nil && rn.Obj().Name() == dbBucketType(effectProg) {
+		if f := effectProg.FuncOf(fn); f != nil {
+			rawPut, rawDel := effectProg.Method("chain", "DBBucket", "Put"), effectProg.Method("chain", "DBBucket", "Delete")
+			if ps.Len() == 2 && reaches(effectProg, fn, rawPut, 2) {
+				if _, isIface := ps.At(1).Type().Underlying().(*types.Interface); isIface {
+					return "put"
+				}
+			}
+			if ps.Len() == 1 && reaches(effectProg, fn, rawDel, 2) {
+				return "del"
+			}
+		}
+		return ""
+	}
 	if ps.Len() == 0 || ps.Len() > 3 || !isID(ps.At(0).Type()) {
 		return ""
 	}
@@ -393,16 +409,58 @@ func analyseSide(c *Ctx, f *ir.Func) map[string]*diffLoop {
 				revised[rootAlias(f.ObjOf(sel.X))] = true
 			}
 		}
+		// value copies (`x := y.Share()`, a helper's parameter bound to such a copy): a copy of the revised element is
+		// the revised element; the source of a copy is not affected by what happens to the copy
+		derived := map[types.Object]types.Object{}
+		for _, w := range f.WritesIn(rs.Body, false) {
+			if w.RHS == nil {
+				continue
+			}
+			l := f.ObjOf(w.LHS)
+			r := f.ObjOf(rootOfLvalue(stripCalls(w.RHS)))
+			if l == nil || r == nil || l == r || isPointer(r.Type()) {
+				continue
+			}
+			if _, isID := ast.Unparen(stripCalls(w.RHS)).(*ast.Ident); isID && types.Identical(l.Type(), r.Type()) {
+				derived[l] = r
+			}
+		}
 		who := func(e ast.Expr) string {
-			o := f.ObjOf(rootOfLvalue(stripCalls(e)))
-			if o != nil && revised[rootAlias(o)] {
+			// the diff's Revision field itself
+			direct := false
+			ir.Walk(e, false, func(x ast.Node) {
+				if sel, ok := x.(*ast.SelectorExpr); ok && isFieldOfObj(f, sel, dl.d, "Revision") {
+					direct = true
+				}
+			})
+			if direct {
 				return "revised"
+			}
+			// a helper's parameter bound to the operand (`from := d.Revision.WindowEnd`)
+			if o := origin(f, e); o != e {
+				viaRev := false
+				ir.Walk(o, false, func(x ast.Node) {
+					if sel, ok := x.(*ast.SelectorExpr); ok && isFieldOfObj(f, sel, dl.d, "Revision") {
+						viaRev = true
+					}
+				})
+				if viaRev {
+					return "revised"
+				}
+				e = o
+			}
+			o := f.ObjOf(rootOfLvalue(stripCalls(e)))
+			for i := 0; i < 4 && o != nil; i++ {
+				if revised[rootAlias(o)] {
+					return "revised"
+				}
+				o = derived[o]
 			}
 			return "prior"
 		}
 		// effects
 		for _, m := range g.Nodes {
-			if m.AST == nil || !containsNode(rs.Body, m.AST) {
+			if m.AST == nil || !containsNode(rs.Body, m.AST) || !g.Live(m) {
 				continue
 			}
 			for _, call := range f.NodeCalls(m) {
@@ -413,7 +471,7 @@ func analyseSide(c *Ctx, f *ir.Func) map[string]*diffLoop {
 				e := eff{kind: role}
 				switch role {
 				case "put":
-					e.who = who(call.Expr.Args[0])
+					e.who = who(call.Expr.Args[len(call.Expr.Args)-1]) // the element (after the key, at wrapper level)
 				case "putExp":
 					if w := windowOperand(f, call); w != nil {
 						e.who = who(w)
@@ -587,9 +645,31 @@ func c02r2(c *Ctx) {
 		var effects []*cfgx.Node
 		for _, n := range g.Nodes {
 			for _, call := range f.NodeCalls(n) {
-				if effectRole(call.Fn) != "" {
-					effects = append(effects, n)
+				if effectRole(call.Fn) == "" {
+					continue
 				}
+				// the bucket wrapper's own put / delete count only where they stem from a function that is handed the
+				// block's update (element work), not from the state writers next to it
+				if rn := recvNamed(call.Fn); rn != nil && rn.Obj().Name() == dbBucketType(c.P) {
+					orig := c.P.OrigNode(call.Expr)
+					if orig == nil {
+						orig = call.Expr
+					}
+					enc := c.P.EnclosingFunc(orig.Pos())
+					takesUpdate := false
+					if enc != nil && enc.Top() != nil && enc.Top().Type.Params != nil {
+						for _, fld := range enc.Top().Type.Params.List {
+							t := enc.Top().Info().TypeOf(fld.Type)
+							if ir.IsNamed(t, ir.PkgPath("consensus"), "ApplyUpdate") || ir.IsNamed(t, ir.PkgPath("consensus"), "RevertUpdate") {
+								takesUpdate = true
+							}
+						}
+					}
+					if !takesUpdate {
+						continue
+					}
+				}
+				effects = append(effects, n)
 			}
 		}
 		if len(effects) == 0 {
